@@ -17,17 +17,17 @@ CLAIMED = {
   note="no schedule or external fault exists in this property (stated caveat, DESIGN 3): what is simulated is the lazily-parsed representation state; model limited to what the doc comments state (DESIGN Appendix A)",
   ref="DESIGN.md 3 (C15), Appendix A"),
  "C16": dict(
-  technique="deterministic simulation: seeded cooperative scheduler over real goroutines (statement-level yield points + RWMutex shim in ast/*.go, futex hand-off invisible to the race detector), race detector as in-run invariant, deadlock detection, sequential-clone reference; fault = malformed text behind a non-validating constructor",
+  technique="deterministic simulation: seeded cooperative scheduler over real goroutines (statement-level yield points + RWMutex shim in ast/*.go, futex hand-off invisible to the race detector), race detector as in-run invariant, deadlock detection, sequential-clone reference; fault = malformed text behind a non-validating constructor, decided by linearizability of the recorded history (invoke/return stamped with the simulator's event sequence) against the single-threaded implementation itself (clone replays, DFS), and per-read explainability where no joint order exists",
   text="seeded search over interleavings of documented reads on one shared node starting raw; each schedule is one tape and replays exactly; race flavour reports missing synchronisation independently of the schedule chosen",
   note="code between two yield points is atomic for the scheduler; native/generated code not instrumented; sampled",
   ref="DESIGN.md 3 (C16)"),
  "C08": dict(
-  technique="deterministic simulation: seeded cooperative scheduler over concurrent API calls on fresh types (first-use JIT compilation inside the run), callbacks that yield mid-encode/decode, seeded sync.Pool decisions, tiny program-cache capacities, injected callback panics; oracles: solo re-execution, encoding/json, race detector, deadlock, traceback sentinel through generated frames",
+  technique="deterministic simulation: seeded cooperative scheduler over concurrent API calls on fresh types (first-use JIT compilation inside the run), callbacks that yield mid-encode/decode, seeded sync.Pool decisions, tiny program-cache capacities, injected callback panics and callback errors, bursts of failing decodes; oracles: solo re-execution, encoding/json, race detector, deadlock, traceback sentinel through generated frames",
   text="seeded search over interleavings x pool decisions x cache capacities; schedules replay exactly from the tape",
   note="generated and native code are atomic blocks except at call-outs; the real GC is not scheduled by the simulator (a crash it causes is a true violation but replays only through the deterministic traceback-sentinel oracle)",
   ref="DESIGN.md 3 (C08)"),
  "C10": dict(
-  technique="deterministic simulation of Go-runtime events: sonic's per-opcode debug seam re-pointed at the simulator (a hook call after every opcode of every compiled program, both JITs) plus hooks in every user callback; the tape injects GC, stack growth/shrink (stack moves), tracebacks with sentinel check, Gosched, background GC cycles, allocation churn; GODEBUG=clobberfree=1, SetGCPercent(-1); lazily compiled (one module per program) and Pretouch-ed (batch-loaded multi-function modules) programs; two toolchains",
+  technique="deterministic simulation of Go-runtime events: sonic's per-opcode debug seam re-pointed at the simulator (a hook call after every opcode of every compiled program, both JITs) plus hooks in every user callback; the tape injects GC, stack growth/shrink (stack moves), tracebacks with sentinel check, Gosched, background GC cycles, allocation churn; GODEBUG=clobberfree=1, SetGCPercent(-1); a write-barrier round (value hidden behind a long list, collection on another goroutine, redecode into the same value while the mark phase is on and the stack already scanned, old values kept on the stack only); lazily compiled (one module per program) and Pretouch-ed (batch-loaded multi-function modules) programs; two toolchains",
   text="seeded search over (event kind x opcode boundary x program) schedules in child processes; every run is one tape",
   note="opcode boundaries and call-outs only, not arbitrary instructions; upstream's own exemption before `save` opcodes; the C10 flavour adds one call per opcode to the generated code; background-cycle timing is the runtime's",
   ref="DESIGN.md 3 (C10)"),
@@ -37,7 +37,7 @@ CLAIMED = {
   note="claim limited to memory placement/over-read (the property has no schedule); amd64 only; inputs are sampled from fragments, truncations, valid documents and SIMD-boundary lengths",
   ref="DESIGN.md 3 (C05), 6 (F10, F13)"),
  "C06": dict(
-  technique="deterministic simulation of the caller's side of ownership: seeded call histories over seeded pools that poison spare capacity on Put, caller buffers whose capacity ends at a PROT_NONE guard page or canaries, the caller scribbling over its inputs after each call (decodes into interface{}, generated types and a struct with quoted/numbered/raw/pointer/map destinations, under option sets, through Unmarshal([]byte) and three CopyString entry points; JIT and optdec+VM configurations); snapshot comparison of every result after every step; buffer-size and pool-limit knobs",
+  technique="deterministic simulation of the caller's side of ownership: seeded call histories over seeded pools that poison spare capacity on Put, caller buffers whose capacity ends at a PROT_NONE guard page or canaries, the caller scribbling over its inputs after each call (decodes into interface{}, generated types and a struct with quoted/numbered/raw/pointer/map destinations, under option sets, through Unmarshal([]byte) and three CopyString entry points; JIT and optdec+VM configurations); encoder reference computed with the pools set aside (history-free) and compared with the call inside the history; snapshot comparison of every result after every step; buffer-size and pool-limit knobs",
   text="seeded search over histories x buffer geometry x pool decisions x knobs; one history = one tape; crashes at the guard page are attributed to the run and replayed from a pre-generated tape",
   note="single client (concurrent recycling is covered by C08's poisoning pools); only the stated direction (sonic must not touch caller-owned bytes) is checked",
   ref="DESIGN.md 3 (C06)"),
